@@ -40,6 +40,14 @@ type syncCase struct {
 	ctx      context.Context
 	wg       sync.WaitGroup
 	stats    map[string]int
+	in       *interner
+	restarts []int
+	idx      int
+	staleHit []bool
+}
+
+func (sc *syncCase) find(text string) {
+	sc.r.Finding(fmt.Sprintf("%s [seed %d case %d: database level, syncAcks=%d, %d replicas]", text, sc.r.Seed, sc.idx, sc.acks, sc.nrep))
 }
 
 func dbObs(d database.DB) obs {
@@ -54,15 +62,23 @@ func dbObs(d database.DB) obs {
 	return o
 }
 
+var lastAdd = time.Now()
+
 func (sc *syncCase) add(term string, js map[string]any) {
+	if os.Getenv("C07_TIMING") == "2" {
+		fmt.Fprintf(os.Stderr, "  %v %v %v\n", time.Since(lastAdd), js["op"], js["what"])
+		lastAdd = time.Now()
+	}
 	sc.steps = append(sc.steps, term)
 	sc.js = append(sc.js, js)
 }
 
 func storeOptsForDB() *store.Options {
-	return store.DefaultOptions().WithSynced(false).WithLogger(quietLogger()).WithSyncFrequency(5 * time.Millisecond).
-		WithMaxConcurrency(8)
+	return smallBuffers(store.DefaultOptions()).WithSynced(false).WithLogger(quietLogger()).WithSyncFrequency(5 * time.Millisecond).
+		WithMaxConcurrency(8).WithMaxKeyLen(dbKeyLen).WithMaxTxEntries(dbTxEntries)
 }
+
+const dbKeyLen, dbTxEntries = 256, 64
 
 // primarySet starts a Set on the primary (it returns only once the transaction is committed,
 // i.e. acknowledged by enough replicas) and waits until the transaction is precommitted.
@@ -85,7 +101,7 @@ func (sc *syncCase) primarySet(k int) error {
 			a := l.hdr.Alh()
 			sc.palhs = append(sc.palhs, a)
 			sc.exports = append(sc.exports, etx)
-			sc.add(fmt.Sprintf("DNew %s", vk.Hex(a[:])), map[string]any{"op": "new", "id": want, "alh": fmt.Sprintf("%x", a)})
+			sc.add(fmt.Sprintf("DNew %s", sc.in.ref(a[:])), map[string]any{"op": "new", "id": want, "alh": fmt.Sprintf("%x", a)})
 			sc.stats["new"]++
 			return nil
 		}
@@ -116,7 +132,7 @@ func (sc *syncCase) checkPrimaryCommit() {
 		}
 	}
 	if holders < sc.acks {
-		sc.r.Finding(fmt.Sprintf("primary committed tx %d while only %d of the required %d replicas hold it (precommitted, same Alh)", t, holders, sc.acks))
+		sc.find(fmt.Sprintf("primary committed tx %d while only %d of the required %d replicas hold it (precommitted, same Alh)", t, holders, sc.acks))
 	}
 }
 
@@ -141,10 +157,10 @@ func (sc *syncCase) checkReplica(i int) {
 	o := dbObs(sc.reps[i])
 	p := dbObs(sc.primary)
 	if o.cid > p.cid {
-		sc.r.Finding(fmt.Sprintf("replica %d committed tx %d before the primary did (primary committed id %d)", i, o.cid, p.cid))
+		sc.find(fmt.Sprintf("replica %d committed tx %d before the primary did (primary committed id %d)", i, o.cid, p.cid))
 	}
 	if o.cid > 0 && o.cid <= uint64(len(sc.palhs)) && o.calh != sc.palhs[o.cid-1] {
-		sc.r.Finding(fmt.Sprintf("replica %d COMMITTED tx %d with Alh %x, the primary's is %x (synchronous replication)", i, o.cid, o.calh, sc.palhs[o.cid-1]))
+		sc.find(fmt.Sprintf("replica %d COMMITTED tx %d with Alh %x, the primary's is %x (synchronous replication)", i, o.cid, o.calh, sc.palhs[o.cid-1]))
 	}
 	d := false
 	if o.pid > uint64(len(sc.palhs)) || (o.pid > 0 && o.palh != sc.palhs[o.pid-1]) {
@@ -167,20 +183,20 @@ func (sc *syncCase) report(u int, cid uint64, calh []byte, pid uint64, palh []by
 		return e
 	})
 	p := dbObs(sc.primary)
-	sc.add(fmt.Sprintf("DReport %d %d %s %d %s %s %d %s %d", u, cid, vk.Hex(calh), pid, vk.Hex(palh), vk.Bool(cls == 0), mayID, vk.Hex(mayAlh[:]), p.cid),
+	sc.add(fmt.Sprintf("DReport %d %d %s %d %s %s %d %s %d", u, cid, sc.in.ref(calh), pid, sc.in.ref(palh), vk.Bool(cls == 0), mayID, sc.in.ref(mayAlh[:]), p.cid),
 		map[string]any{"op": "report", "what": what, "uuid": u, "cid": cid, "calh": fmt.Sprintf("%x", calh), "pid": pid, "palh": fmt.Sprintf("%x", palh),
 			"ok": cls == 0, "err": errStr(err), "mayid": mayID, "pcom": p.cid})
 	sc.stats["report/"+what+[]string{"/ok", "/err", "/panic"}[cls]]++
 	if cls == 2 {
-		sc.r.Finding(fmt.Sprintf("ExportTxByID panicked: %v", err))
+		sc.find(fmt.Sprintf("ExportTxByID panicked: %v", err))
 	}
 	if cls == 0 && pid > 0 {
 		if pid > uint64(len(sc.palhs)) || string(palh) != string(sc.palhs[pid-1][:]) {
-			sc.r.Finding(fmt.Sprintf("primary accepted a replica state (precommitted id %d, Alh %x) that is not its own history", pid, palh))
+			sc.find(fmt.Sprintf("primary accepted a replica state (precommitted id %d, Alh %x) that is not its own history", pid, palh))
 		}
 	}
 	if cls == 0 && mayID > p.cid {
-		sc.r.Finding(fmt.Sprintf("primary told a replica it may commit up to %d while its own committed id is %d", mayID, p.cid))
+		sc.find(fmt.Sprintf("primary told a replica it may commit up to %d while its own committed id is %d", mayID, p.cid))
 	}
 	sc.checkPrimaryCommit()
 	return
@@ -195,29 +211,41 @@ func (sc *syncCase) deliver(i int, b []byte, what string) int {
 	b = vk.Exact(b)
 	before := dbObs(sc.reps[i])
 	ctx, cancel := context.WithTimeout(context.Background(), 250*time.Millisecond)
+	var hdr *schema.TxHeader
+	wasDiverged := sc.diverged[i]
 	cls, err := call(func() error {
-		_, e := sc.reps[i].ReplicateTx(ctx, b, false, false)
+		var e error
+		hdr, e = sc.reps[i].ReplicateTx(ctx, b, false, false)
 		return e
 	})
 	cancel()
 	after := dbObs(sc.reps[i])
-	sc.repStep(i, fmt.Sprintf("SDeliver false %s %s %s", vk.Hex(b), resUnit(cls), after.term()),
+	sc.repStep(i, fmt.Sprintf("SDeliver false %s %s %s", sc.in.ref(b), resUnit(cls), after.term(sc.in)),
 		map[string]any{"op": "deliver", "what": what, "bytes": fmt.Sprintf("%x", b), "out": cls, "err": errStr(err), "after": after.js()})
 	sc.stats["deliver/"+what+[]string{"/accepted", "/rejected", "/panic"}[cls]]++
 	if cls == 2 {
-		sc.r.Finding(fmt.Sprintf("database.ReplicateTx panicked: %v", err))
+		sc.find(fmt.Sprintf("database.ReplicateTx panicked: %v", err))
 	}
 	if cls == 1 && before != after {
-		sc.r.Finding(fmt.Sprintf("rejected delivery changed replica %d state", i))
+		sc.find(fmt.Sprintf("rejected delivery changed replica %d state", i))
 	}
 	sc.checkReplica(i)
+	if cls == 0 && what == "next" && !wasDiverged && sc.diverged[i] {
+		zero := make([]byte, 32)
+		if hdr.BlTxId == 0 && string(hdr.BlRoot) != string(zero) {
+			sc.staleHit[i] = true
+			sc.find(fmt.Sprintf("ReplicateTx stored a non-zero BlRoot for a transaction with BlTxID=0 (stale tx holder): unaltered export of tx %d accepted by replica %d, header BlRoot %x", hdr.Id, i, hdr.BlRoot))
+		} else {
+			sc.find(fmt.Sprintf("replica %d accepted the unaltered export of tx %d but its Alh differs from the primary's", i, hdr.Id))
+		}
+	}
 	return cls
 }
 
 func (sc *syncCase) dbAllow(i int, t uint64, a [sha256.Size]byte, what string) {
 	cls, err := call(func() error { return sc.reps[i].AllowCommitUpto(t, a) })
 	after := dbObs(sc.reps[i])
-	sc.repStep(i, fmt.Sprintf("SDbAllow %d %s %s %s", t, vk.Hex(a[:]), vk.Bool(cls == 0), after.term()),
+	sc.repStep(i, fmt.Sprintf("SDbAllow %d %s %s %s", t, sc.in.ref(a[:]), vk.Bool(cls == 0), after.term(sc.in)),
 		map[string]any{"op": "dballow", "what": what, "t": t, "alh": fmt.Sprintf("%x", a), "out": cls, "err": errStr(err), "after": after.js()})
 	sc.stats["dballow/"+what+[]string{"/ok", "/err", "/panic"}[cls]]++
 	sc.checkReplica(i)
@@ -233,11 +261,11 @@ func (sc *syncCase) discard(i int, t uint64) {
 	} else if cls == 1 {
 		out = "(Err 0)"
 	}
-	sc.repStep(i, fmt.Sprintf("SDiscard %d %s %s", t, out, after.term()),
+	sc.repStep(i, fmt.Sprintf("SDiscard %d %s %s", t, out, after.term(sc.in)),
 		map[string]any{"op": "discard", "t": t, "out": cls, "err": errStr(err), "after": after.js()})
 	sc.stats["discard"+[]string{"/ok", "/err", "/panic"}[cls]]++
 	if after.cid != before.cid {
-		sc.r.Finding(fmt.Sprintf("DiscardPrecommittedTxsSince(%d) changed the committed id of replica %d", t, i))
+		sc.find(fmt.Sprintf("DiscardPrecommittedTxsSince(%d) changed the committed id of replica %d", t, i))
 	}
 	sc.checkReplica(i)
 }
@@ -252,8 +280,9 @@ func (sc *syncCase) restart(i int) error {
 	}
 	sc.reps[i] = d
 	after := dbObs(d)
-	sc.repStep(i, fmt.Sprintf("SRestart %s", after.term()), map[string]any{"op": "restart", "after": after.js()})
+	sc.repStep(i, fmt.Sprintf("SRestart %s", after.term(sc.in)), map[string]any{"op": "restart", "after": after.js()})
 	sc.stats["restart"]++
+	sc.restarts[i]++
 	sc.checkReplica(i)
 	return nil
 }
@@ -266,6 +295,8 @@ func (sc *syncCase) fetch(i int, deliverIt bool) {
 		if strings.Contains(err.Error(), "replica precommit state diverged from primary") {
 			// allowTxDiscarding: the replicator discards the precommitted backlog
 			sc.discard(i, o.cid+1)
+			// (a replica that hit the stale-BlRoot finding re-precommits tx 1 wrongly for ever, even
+			// after reopenings: see storeCase.schedule; it is left out of the liveness checks below)
 		}
 		return
 	}
@@ -282,7 +313,7 @@ func (sc *syncCase) fetch(i int, deliverIt bool) {
 
 func runSyncCase(r *vk.Run, idx int) error {
 	rng := r.Rng
-	sc := &syncCase{r: r, stats: map[string]int{}}
+	sc := &syncCase{r: r, stats: map[string]int{}, in: &interner{}, idx: idx}
 	sc.acks = 1 + rng.Intn(2)
 	sc.nrep = sc.acks + rng.Intn(2)
 	sc.ctx, sc.cancel = context.WithCancel(context.Background())
@@ -314,6 +345,8 @@ func runSyncCase(r *vk.Run, idx int) error {
 		sc.rdirs = append(sc.rdirs, d)
 		sc.ropts = append(sc.ropts, ro)
 	}
+	sc.restarts = make([]int, sc.nrep)
+	sc.staleHit = make([]bool, sc.nrep)
 	sc.acked = make([]uint64, sc.nrep)
 	sc.diverged = make([]bool, sc.nrep)
 	defer func() {
@@ -416,6 +449,9 @@ func runSyncCase(r *vk.Run, idx int) error {
 	for round := 0; round < 3*len(sc.palhs)+6; round++ {
 		done := dbObs(sc.primary).cid == uint64(len(sc.palhs))
 		for i := range sc.reps {
+			if sc.staleHit[i] {
+				continue
+			}
 			o := dbObs(sc.reps[i])
 			if o.cid < uint64(len(sc.palhs)) {
 				done = false
@@ -426,18 +462,24 @@ func runSyncCase(r *vk.Run, idx int) error {
 			break
 		}
 	}
+	healthy := 0
+	for i := range sc.reps {
+		if !sc.staleHit[i] {
+			healthy++
+		}
+	}
 	p := dbObs(sc.primary)
-	if p.cid != uint64(len(sc.palhs)) {
-		sc.r.Finding(fmt.Sprintf("synchronous replication stalled: primary committed %d of %d although every replica kept reporting", p.cid, len(sc.palhs)))
+	if p.cid != uint64(len(sc.palhs)) && healthy >= sc.acks {
+		sc.find(fmt.Sprintf("synchronous replication stalled: primary committed %d of %d although %d replicas (syncAcks %d) kept reporting", p.cid, len(sc.palhs), healthy, sc.acks))
 	}
 	for i := range sc.reps {
 		o := dbObs(sc.reps[i])
-		if o.cid != p.cid || (o.cid > 0 && o.calh != sc.palhs[o.cid-1]) {
-			sc.r.Finding(fmt.Sprintf("after draining, replica %d is at committed id %d (primary %d) or its Alh differs", i, o.cid, p.cid))
+		if !sc.staleHit[i] && healthy >= sc.acks && (o.cid != p.cid || (o.cid > 0 && o.calh != sc.palhs[o.cid-1])) {
+			sc.find(fmt.Sprintf("after draining, replica %d is at committed id %d (primary %d) or its Alh differs", i, o.cid, p.cid))
 		}
 	}
-	c := cfg{ext: true, maxActive: 1000, maxKeyLen: 1024, maxValueLen: 4096, maxTxEntries: 1024}
-	r.Case(fmt.Sprintf("CSync %d %s %d %s", sc.acks, c.term(), sc.nrep, vk.List(sc.steps)),
+	c := cfg{ext: true, maxActive: 1000, maxKeyLen: dbKeyLen, maxValueLen: 4096, maxTxEntries: dbTxEntries}
+	r.Case(sc.in.wrap(fmt.Sprintf("CSync %d %s %d %s", sc.acks, c.term(), sc.nrep, vk.List(sc.steps))),
 		map[string]any{"kind": "sync", "acks": sc.acks, "nrep": sc.nrep, "steps": sc.js, "seed": r.Seed, "n": genN},
 		fmt.Sprintf("sync/acks%d/rep%d", sc.acks, sc.nrep), len(sc.steps) >= 5)
 	for k, v := range sc.stats {
